@@ -49,7 +49,7 @@ theorem specBody_scope (env : Spec.Env) (rec : Spec.Rec) (sc sc' : List NodeId) 
     (hrec : rec (sc ++ [s]) = rec (sc' ++ [s])) (h : ScopeEqv env (sc ++ [s]) (sc' ++ [s])) :
     specBody env rec sc s j n = specBody env rec sc' s j n := by
   unfold specBody kwList
-  rw [hrec, kwDynamicRef_scope env _ _ _ s n j h]
+  rw [hrec, kwDynamicRef_scope env _ _ _ s _ j h]
 
 /-- **Scope.**  Applications at `s` under two scopes that, extended by `s`, designate the same dynamic targets have the
     same outcome -/
